@@ -400,6 +400,23 @@ def fork_join_model(eng, sids):
 def amb_model(eng, sids):
     st = {"winner": None}
     subs = []
+    # simultaneous firsts: either may win (tie)
+    firsts = []
+    for sid in sids:
+        spec = eng.specs[sid]
+        ev = spec["events"]
+        if not ev:
+            continue
+        if spec["kind"] == "sync":
+            firsts.append(eng.now)
+        elif spec["kind"] == "cold":
+            firsts.append(eng.now + min(e[0] for e in ev))
+        else:
+            later = [e[0] for e in ev if e[0] >= eng.now]
+            if later:
+                firsts.append(min(later))
+    if firsts and firsts.count(min(firsts)) > 1:
+        raise Tie()
 
     def mk(i):
         def h(k, v):
